@@ -5,6 +5,7 @@ package hash
 
 // C16: computing the key of an execution never panics, whatever the task looks like (a wildcard name reached through
 // an alias has no MATCH, a task may define a MATCH variable of its own ...)
+//@ ghost var nameKey string scratch
 //@ func Empty
 //@   nopanic                                                        [C16]
 //@   pure
@@ -16,6 +17,11 @@ package hash
 //@   pure allocates
 //@   site (*Task).LocalName#0 requires arg0 == t                                                    [C06]
 //@   ensures result.1 == nil                                                                        [C06]
+// the key is the location and the local name AS THEY ARE: two tasks whose names (or files) differ in any character -
+// in case, too - are different tasks with executions and outcomes of their own
+//@   site fmt.Sprintf#1 ghost nameKey := result
+//@   ensures result.0 == nameKey                                                                    [C06,C03,C01]
+//@   nosite strings.ToLower                                                                         [C06,C03,C01]
 
 // The when_changed key hashes the whole compiled task with hashstructure's default options (order sensitive,
 // every exported field); what hashstructure covers is examined by the structural clause fields_hashed.
